@@ -69,7 +69,14 @@ impl StreamReader {
         }
 
         // 3. buffer 为空，从 channel 接收新数据
-        match self.reader_rx.recv().await {
+        // An empty chunk carries no data: returning Ok(0) for it would look like EOF
+        let received = loop {
+            match self.reader_rx.recv().await {
+                Some(data) if data.is_empty() => continue,
+                other => break other,
+            }
+        };
+        match received {
             Some(data) => {
                 let data_len = data.len();
                 tracing::debug!(
